@@ -22,6 +22,7 @@ def rejection_cases(draw, max_n=60, logprobs=False):
         # range where exp() of the raw value is representable
         "ll_shift": draw(st.sampled_from([0.0, 0.0, 0.0, -3000.0, 2500.0, -1e5])),
         "path": draw(st.sampled_from(["mem", "cache", "file"])),
+        "lib_history": draw(st.sampled_from([None, None, None, None, "pack_units", "setitem", "inplace"])),
         "n_prior": draw(st.one_of(st.none(), st.integers(1, n))),
         "max_post": draw(st.one_of(st.none(), st.integers(1, n + 2))),
         "n_linear": draw(st.sampled_from([1, 1, 2, 3])),
@@ -106,6 +107,8 @@ def run_rejection(ctx, case, lib=None, lls=None, iterative=None, order_fn=None):
         lib = fakes.scripted_library(n, units=case.get("lib_units"))
         # make the stored ln_prior values specific to this library (a value cached from another one must show)
         lib["ln_prior"] = np.asarray(lib["ln_prior"]) - 0.001 * (case.get("profile_seed", 0) % 997)
+        from vt import gens as _gens
+        _gens.age_samples(lib, case.get("lib_history"))
     holder = [None]
     steer = make_steer(case, lls, holder, order_fn)
     rg = SteeringGenerator(np.random.PCG64(case["rng_seed"]), uniforms=[steer] * 200 if steer else None)
